@@ -190,7 +190,46 @@ def r05_7(ctx, rule='R05.7'):
            % bad[0][0].qual)
 
 
+
+def r05_10(ctx):
+    ctx.rule('R05.10', 'one scan pass looks at every job of its snapshot: the scanner gives control back (yield) only '
+                       'between passes, never inside the per-job loop, and nothing leaves that loop early', floor=1)
+    m = ctx.model
+    fi = m.func('pool:TimeoutHandler.handle_timeouts')
+    loops = [n for n in walk_own(fi.node) if isinstance(n, ast.For) and any(
+        isinstance(c, ast.Call) and fi.callee(c) in ('self.on_hard_timeout', 'self.on_soft_timeout') for c in ast.walk(n))]
+    q.need(loops, 'handle_timeouts: per-job loop not found')
+    for lp in loops:
+        inner = [x for x in ast.walk(lp) if isinstance(x, (ast.Yield, ast.YieldFrom, ast.Return))]
+        brk = [x for st in lp.body for x in ast.walk(st) if isinstance(x, ast.Break)
+               and not any(isinstance(y, (ast.For, ast.While)) and any(z is x for z in ast.walk(y)) for y in ast.walk(st))]
+        bad = inner + brk
+        ctx.ob('R05.10', 'scan:pass-is-not-interrupted', not bad, fi, bad[0] if bad else lp,
+               'the per-job loop has no yield, return or break' if not bad else
+               '`%s` inside the per-job loop: the caller sleeps a scan period after every yield, so the k-th expired job '
+               'of one pass is handled k-1 periods late (or not in this pass at all)' % ast.unparse(bad[0])[:40])
+
+
+def r05_11(ctx):
+    ctx.rule('R05.11', 'the limits recorded for a job are the caller\'s, else the pool\'s defaults -- never derived from '
+                       'one another', floor=2)
+    m = ctx.model
+    fi = m.func('pool:Pool.apply_async')
+    for name in ('timeout', 'soft_timeout'):
+        defs = [(dn, v) for (dn, t, v) in q.assigns(fi, name) if v is not None]
+        odd = [(dn, v) for (dn, v) in defs
+               if ast.unparse(v).replace(' ', '') != '%sorself.%s' % (name, name) and
+               not (name == 'soft_timeout' and ast.unparse(v) == 'None')]
+        ctx.ob('R05.11', 'apply_async:%s-is-own-or-default' % name, bool(defs) and not odd, fi,
+               odd[0][0] if odd else (defs[0][0] if defs else None),
+               '%s = %s or self.%s is its only definition' % (name, name, name) if not odd else
+               '`%s = %s`: the job is recorded with a limit that is neither the caller\'s nor the pool default' % (
+                   name, ast.unparse(odd[0][1])[:60]))
+
+
 def run(ctx):
+    r05_10(ctx)
+    r05_11(ctx)
     helpers_hold_live_objects(ctx, 'R05.8', only=('TimeoutHandler', 'ResultHandler.cache'), floor=3)
     from .timelimits import scan_period
     scan_period(ctx, 'R05.9')
@@ -216,6 +255,8 @@ def run(ctx):
 
 _P = 'billiard/pool.py'
 MUTANTS = [
+    ('scan-yields-after-each-kill', _P, "                    on_hard_timeout(job)\n                elif i not in dirty", "                    on_hard_timeout(job)\n                    yield\n                elif i not in dirty", 'R05.10'),
+    ('hard-limit-pushed-behind-soft', _P, "        timeout = timeout or self.timeout\n", "        timeout = timeout or self.timeout\n        if soft_timeout and timeout and soft_timeout >= timeout:\n            timeout = soft_timeout + 1.0\n", 'R05.11'),
     ('scanner-snapshots-the-worker-list', _P, "        self.processes = processes\n", "        self.processes = list(processes)\n", 'R05.8'),
     ('scanner-copies-the-cache', _P, "        self.processes = processes\n        self.cache = cache\n", "        self.processes = processes\n        self.cache = dict(cache)\n", 'R05.8'),
     ('close-stops-the-scanner', _P, "            self._worker_handler.close()\n            self._taskqueue.put(None)\n",
